@@ -98,9 +98,13 @@ theorem pype_args_table (s : St) (raw : Val) (kvs : Dict)
       rw [hup]; exact hexcl
     · intro h; rw [hre]; exact raiseErrorOf_default kvs h
     · intro v h; rw [hre]; exact raiseErrorOf_explicit kvs v h
-    · intro g h; rw [hgr]; exact groupsOf_str kvs g h
-    · intro gs h; rw [hgr, groupsOf_list kvs _ h]; exact strList?_strs gs
-    · intro h; rw [hgr]; exact groupsOf_none kvs h
+    · intro g h
+      have := groupsOf_str kvs g h; rw [hgr] at this; injection this with this; injection this
+    · intro gs h
+      have := groupsOf_list kvs _ gs h (strList?_strs gs); rw [hgr] at this
+      injection this with this; injection this
+    · intro h
+      have := groupsOf_none kvs h; rw [hgr] at this; injection this with this; injection this
   · intro name args o hn ha ho hot hup
     rw [hget]
     apply pypeArgsOfDict_out_with_parent kvs name args hn ha
@@ -125,7 +129,7 @@ theorem pype_step_decomposition (fuel : Nat) (prog : Program) (s : St) :
     (∀ a, getPypeArgs s = .ok a →
       pypeBody (fuel + 1) prog s = pypeWith a (runPipeline fuel prog (pypeInst a)) s ∧
       pypeInst a = { name := a.name, groups := a.groups, success := a.success, failure := a.failure,
-                     parseInput := !a.skipParse, contextArgs := a.pipeArg }) := by
+                     parseInput := !a.skipParse, contextArgs := a.pipeArg, groupsBad := a.groupsBad }) := by
   constructor
   · intro n m h; rw [pypeBody_eq, h]
   · intro a h; rw [pypeBody_eq, h]; exact ⟨rfl, rfl⟩
@@ -363,12 +367,12 @@ theorem stopPipeline_never_leaves_a_pipeline (fuel : Nat) (prog : Program) :
 /-- a `StopPipeline` out of the child's groups: the child pipeline ends normally in that state (its
     stack entry popped) — that is what the pype step then sees. -/
 theorem child_stopPipeline_is_normal_end (fuel : Nat) (prog : Program) (pi : PipeInst) (pd : PipeDef)
-    (s s1 s2 : St) (hp : prog.find? pi.name = some pd)
+    (s s1 s2 : St) (hp : prog.find? pi.name = some pd) (hgb : pi.groupsBad = false)
     (hprep : prepareContext pd pi { s with stack := pi.name :: s.stack } = (s1, .ok))
     (hg : runGroups fuel prog pi.name (effectiveGroups pi).1 (effectiveGroups pi).2.1 (effectiveGroups pi).2.2 s1
             = (s2, .stopPipeline)) :
     runPipeline (fuel + 1) prog pi s = ({ s2 with stack := s2.stack.drop 1 }, .ok) := by
-  rw [runPipeline_eq fuel prog pi pd s hp]
+  rw [runPipeline_eq fuel prog pi pd s hp hgb]
   simp only [hprep, hg]
 
 /-- **A child error reaches the pype step only after the child's own failure handler ran.** Whenever a
@@ -380,7 +384,7 @@ theorem child_stopPipeline_is_normal_end (fuel : Nat) (prog : Program) (pi : Pip
     was handed on; the state the pype step receives is the one the handler left. (No failure group
     named: the state of the failure.) By `pype_result_table` that `e` then fails the step iff `raiseError`. -/
 theorem child_error_after_its_failure_handler (fuel : Nat) (prog : Program) (pi : PipeInst) (s s' : St)
-    (e : ExcV) (h : Bool) (hr : runPipeline fuel prog pi s = (s', .err e h)) :
+    (e : ExcV) (h : Bool) (hgb : pi.groupsBad = false) (hr : runPipeline fuel prog pi s = (s', .err e h)) :
     (prog.find? pi.name = none ∧ s'.ctx = s.ctx) ∨
     (∃ pd n s1 s2, fuel = n + 1 ∧ prog.find? pi.name = some pd ∧
         prepareContext pd pi { s with stack := pi.name :: s.stack } = (s1, .err e h) ∧
@@ -394,7 +398,7 @@ theorem child_error_after_its_failure_handler (fuel : Nat) (prog : Program) (pi 
          (hasFailureGroup (effectiveGroups pi).2.2 = true ∧
             ∃ s2, runFailureGroup n prog pi.name (effectiveGroups pi).2.2 s1 = (s2, .ok) ∧
               s' = { s2 with stack := s2.stack.drop 1 }))) :=
-  runPipeline_err_after_handler fuel prog pi s s' e h hr
+  runPipeline_err_after_handler fuel prog pi s s' e h hgb hr
 
 /-! ## the parent is the current pipeline again -/
 
@@ -440,14 +444,14 @@ theorem parent_is_current_after_pype (fuel : Nat) (prog : Program) (pipe : Strin
 /-- while the child runs, the child is the current pipeline: its groups run with its name pushed on the
     stack it was given (the parent's in shared mode, the empty one of its own context otherwise). -/
 theorem child_is_current_while_it_runs (fuel : Nat) (prog : Program) (pi : PipeInst) (pd : PipeDef) (s : St)
-    (hp : prog.find? pi.name = some pd) :
+    (hp : prog.find? pi.name = some pd) (hgb : pi.groupsBad = false) :
     ∃ inner : St × Res,
       runPipeline (fuel + 1) prog pi s = ({ inner.1 with stack := inner.1.stack.drop 1 }, inner.2) ∧
       (∀ s1, prepareContext pd pi { s with stack := pi.name :: s.stack } = (s1, .ok) →
         s1.stack = pi.name :: s.stack ∧
         ∃ x, runGroups fuel prog pi.name (effectiveGroups pi).1 (effectiveGroups pi).2.1 (effectiveGroups pi).2.2 s1
               = (inner.1, x)) := by
-  rw [runPipeline_eq fuel prog pi pd s hp]
+  rw [runPipeline_eq fuel prog pi pd s hp hgb]
   simp only []
   refine ⟨_, rfl, ?_⟩
   intro s1 hprep
@@ -543,7 +547,8 @@ def demoSt : St := { ctx := [("keep", .str "K"), ("x", .str "old"), ("pype", .di
 /-- the arguments `get_arguments` reads there -/
 def demoArgs : PypeArgs :=
   { name := "child", args := some [("seed", .str "S")], out := some (.list [.str "x"]), useParent := false,
-    pipeArg := none, skipParse := true, raiseError := true, groups := none, success := none, failure := none }
+    pipeArg := none, skipParse := true, raiseError := true, groups := none, groupsBad := false,
+    success := none, failure := none }
 
 /-- the hypotheses of `pype_args_table`, `pype_step_own_context_isolated` and of the `out` clause of
     `pype_own_context_isolated` on that run's pype step: arguments are read from a formatted mapping,
@@ -578,7 +583,7 @@ example :
 example :
     argsRow { ctx := [("pype", .dict [(.str "name", .str "c")])] }
       = some { name := "c", args := none, out := none, useParent := true, pipeArg := none, skipParse := true,
-               raiseError := true, groups := none, success := none, failure := none } ∧
+               raiseError := true, groups := none, groupsBad := false, success := none, failure := none } ∧
     argsBrief { ctx := [("pype", .dict [(.str "name", .str "c"), (.str "pipeArg", .str "a=1 b=2")])] }
       = some ⟨false, false, true, true, none⟩ ∧
     argsBrief { ctx := [("pype", .dict [(.str "name", .str "c"), (.str "pipeArg", .str "a=1"),
